@@ -42,8 +42,9 @@ def gen_cases(tier, seed):
     cases = [{"kind": "session", "seed": rng.randrange(1 << 48), "tier": tier} for _ in range(n_sess)]
     cases += [{"kind": "oneshot", "seed": rng.randrange(1 << 48), "tier": tier, "count": 4} for _ in range(n_one)]
     cases += [{"kind": "session", "seed": rng.randrange(1 << 48), "tier": tier, "big": True} for _ in range(n_big)]
+    cases += [{"kind": "equalsize", "seed": rng.randrange(1 << 48), "tier": tier, "count": 3} for _ in range({"quick": 6, "search": 12, "thorough": 20}[tier])]
     rng.shuffle(cases)
-    return cases
+    return [dict(c) for c in framelib.CORPUS] + cases       # regression corpus of repaired defects runs first
 
 def worker_init(ctx):
     return {"L": Lib(ctx["lib"]), "oracle": Oracle(name="framec")}
